@@ -237,7 +237,7 @@ template <class F> static std::vector<Outcome> in_child(const std::string &dir, 
 
 // ---------------------------------------------------------------- generation
 
-static long plan_C15(const std::string &tier) { return tier == "quick" ? 2000 : 100000; }
+static long plan_C15(const std::string &tier) { return tier == "quick" ? 6000 : 100000; }
 
 static void put_sched(Rng &g, Rec &r, int T) {
   Scn tmp;
